@@ -70,6 +70,15 @@ def triple(F, seed, m, t, alt, t_dec, ctor, other_seed, other_m, flipper=None):
         if st is None or len(st) != 2:
             return ('nocheck', 'nosig', 'extract')
         R, sa = st
+        # the adapter is also published in the cache (keys R, sa, T; tape flags default on): the same values as on the stack
+        try:
+            _, _, cch = F.run_script(push(seed) + push(m) + push(T) + op('MAKE_ADAPTER_SIG_PUBLIC'), {})
+            for key, val in ((b'R', R), (b'sa', sa), (b'T', T)):
+                if cch.get(key) not in (val, [val]):
+                    return ('cache-export-of-%s-differs-from-the-adapter' % key.decode(), 'nosig', 'extract')
+        except BaseException as e:
+            if isinstance(e, (KeyboardInterrupt, SystemExit)):
+                raise
     else:
         st = run(F, push(m) + push(t) + push(seed) + op('MAKE_ADAPTER_SIG_PRIVATE'))
         if st is None or len(st) != 3:
@@ -170,7 +179,10 @@ def builders_case(F, T, r, sk, traw):
     Tp = E.base_mult_noclamp(t)
     pk = E.public_key(sk)
     sf = {f'sigfield{i}': r.randbytes(r.choice([1, 8, 40])) for i in range(1, 9) if r.random() < 0.5} or {'sigfield1': b'x'}
-    flags = r.choice(['00', '00', '01', '02', '05', '80'])
+    flags = r.choice(['00', '00', '01', '02', '05', '80', '0a', 'c0', '7f'])
+    if r.random() < 0.1:
+        sf = {'sigfield8': r.randbytes(9)}          # the last sigfield alone
+        flags = r.choice(['00', '0a'])
     if int(flags, 16) and all(((int(flags, 16) >> (i - 1)) & 1) for i in range(1, 9) if f'sigfield{i}' in sf):
         flags = '00'
     variant = r.choice(['pub', 'prv', 'one_pub', 'one_prv'])
